@@ -84,7 +84,7 @@ Theorem C05_cand_inj_frag2 : forall (fb : flat), frag2 fb = true ->
   forall (k1 k2 : key) (c1 c2 : candidate),
   In k1 (keys_of fb) -> In k2 (keys_of fb) ->
   decode_key fb k1 = Some c1 -> decode_key fb k2 = Some c2 ->
-  tseq_of_run fb c1 = tseq_of_run fb c2 -> k1 = k2.
+  cand_seq fb c1 = cand_seq fb c2 -> k1 = k2.
 Proof. exact f2_cand_inj. Qed.
 Print Assumptions C05_cand_inj_frag2.
 
@@ -95,7 +95,7 @@ Print Assumptions C05_keys_nodup_frag2.
 Theorem C05_accept_complete_frag2 : forall (fb : flat), frag2 fb = true ->
   forall (s : tseq), enumerates fb -> fl_errors_fail fb = false -> valid_b (code_sem fb) s = true ->
   exists (k : key) (cand : candidate),
-    In k (keys_of fb) /\ decode_key fb k = Some cand /\ accepts fb cand = true /\ tseq_of_run fb cand = s.
+    In k (keys_of fb) /\ decode_key fb k = Some cand /\ accepts fb cand = true /\ cand_seq fb cand = s.
 Proof. exact f2_accept_complete. Qed.
 Print Assumptions C05_accept_complete_frag2.
 
@@ -121,4 +121,12 @@ Example C05_example_multicross :
 Proof.
   split; [exact ex4_frag2|]. split; [exact ex4_frag1|]. split; [exact ex4_enum|]. split; [exact ex4_nacc|]. split; [exact ex4_nvalid|].
   split; [exact ex4_inj | exact ex4_complete].
+Qed.
+
+Example C05_example_implied :
+  frag2 ex5_flat = true /\ frag1 ex5_flat = false /\ enumerates_b ex5_flat = true /\ length (keys_of ex5_flat) = 6 /\
+  length (all_valid (code_sem ex5_flat)) = 6 /\ check_inj ex5_flat = true /\ check_complete ex5_flat = true.
+Proof.
+  split; [exact ex5_frag2|]. split; [exact ex5_frag1|]. split; [exact ex5_enum|]. split; [exact ex5_nkeys|]. split; [exact ex5_nvalid|].
+  split; [exact ex5_inj | exact ex5_complete].
 Qed.
